@@ -18,6 +18,10 @@ from .c10 import mk_tsl
 LEVEL = "other"
 
 
+class Declined(Exception):
+    """the compiler refuses the input (assertion / NotImplementedError): not evidence for or against."""
+
+
 # ------------------------------------------------------------------ A: allocation size (memref-to-snax)
 
 
@@ -42,14 +46,16 @@ def case_size(case):
         for bs in bounds:
             shape.append(DYNAMIC_INDEX if bs[0] is None else int(np.prod(bs)))
         dyn_ops = [test.TestOp(result_types=[IndexType()]) for s in shape if s == DYNAMIC_INDEX]
-        if kind == "tsl":
+        if kind in ("tsl", "tsl_dynoff"):
             steps = [[get(f"s{d}_{k}") for k in range(len(bs))] for d, bs in enumerate(bounds)]
-            off = get("off")
+            # `offset: ?`: the offset is only known at run time; no compile-time size covers it, so the only right
+            # answer is to refuse the allocation
+            off = get("off") if kind == "tsl" else None
             layout = TiledStridedLayoutAttr(mk_tsl(bounds, steps, off))
         else:
             steps, off, layout = None, 0, NoneAttr()
         mt = MemRefType(IntegerType(elw), shape, layout, StringAttr("L1"))
-        al = memref.AllocOp([d.res[0] for d in dyn_ops], [], mt, alignment=64)
+        al = memref.AllocOp([d.res[0] for d in dyn_ops], [], mt, alignment=builtin.IntegerAttr(64, 64))
         use = test.TestOp(operands=[al.memref])
         m = ModuleOp([func.FuncOp("f", ((), ()), Region(Block([*dyn_ops, al, use, func.ReturnOp()])))])
         return m, dyn_ops, steps, off
@@ -75,7 +81,12 @@ def case_size(case):
 
     def fn():
         E = eng()
-        m, dyn_ops, steps, off = build(lambda nm: sym.sym(nm, 0 if nm == "off" else 1, None))
+        if kind == "tsl_dynoff":
+            # concrete steps: the refusal is reported with the printed op, which symbolic attribute values cannot survive
+            cnt = itertools.count(1)
+            m, dyn_ops, steps, off = build(lambda nm: 5 * next(cnt) + 1)
+        else:
+            m, dyn_ops, steps, off = build(lambda nm: sym.sym(nm, 0 if nm == "off" else 1, None))
         # run-time sizes: dynamic outermost bound q tiles
         qs, dimsize = [], []
         for d, bs in enumerate(bounds):
@@ -87,15 +98,23 @@ def case_size(case):
                 dimsize.append(q * inner)
             else:
                 dimsize.append(z3.IntVal(int(np.prod(bs))))
-        allocs, got = run(m, dyn_ops, qs)
+        try:
+            allocs, got = run(m, dyn_ops, qs)
+        except (AssertionError, NotImplementedError) as e:
+            if kind == "tsl_dynoff":
+                raise Declined(f"compiler declines: {str(e)[:60]}")
+            raise
+        if kind == "tsl_dynoff":
+            off = z3.Int("off_rt")
+            E.assume(off >= 0)
         E.oblige("lowered:one_snax_alloc", z3.BoolVal(len(allocs) == 1 and "size" in got))
         if "size" not in got:
             return
         x = [z3.Int(f"x{d}") for d in range(rank)]
         for xi, n in zip(x, dimsize):
             E.assume(z3.And(xi >= 0, xi < n))
-        if kind == "tsl":
-            tot = sym.zint(off)
+        if kind in ("tsl", "tsl_dynoff"):
+            tot = off if z3.is_expr(off) else sym.zint(off)
             for d, bs in enumerate(bounds):
                 for k in range(len(bs)):
                     inner = int(np.prod(bs[k + 1:])) if bs[k + 1:] else 1
@@ -121,7 +140,8 @@ def case_size(case):
     def sig(f, v):
         return f["name"]
 
-    return run_case(fn, replay, signature=sig, sample=dict(kind=kind, bounds=str(bounds), width=elw), key=str(case), max_paths=600, witness=False)
+    return run_case(fn, replay, signature=sig, sample=dict(kind=kind, bounds=str(bounds), width=elw), key=str(case), max_paths=600, witness=False,
+                    reject=(Declined,))
 
 
 # ------------------------------------------------------------------ B: static bump allocation
@@ -429,6 +449,8 @@ def run(chk):
     for b in bsets:
         for elw in (8, 32) if quick else (8, 16, 32, 64):
             cases.append(("tsl", b, elw))
+            if elw == 8 or not quick:
+                cases.append(("tsl_dynoff", b, elw))
             cases.append(("none", [[x[0]] if x[0] is None else [int(np.prod(x))] for x in b], elw))
     if only in (None, "size"):
         chk.add_results("allocation_size", pmap(case_size, cases, chunks=2))
